@@ -26,7 +26,7 @@ func TestMain(m *testing.M) {
 	case "C16":
 		harness.Run(&harness.Prop{
 			ID: "C16",
-			Rule: "the shipped start() of rtcmlogger (in-package harness) under the controlled scheduler with stdin, stdout and the daily record writer owned by the harness (every Read and Write a scheduling point); inputs {empty, 1 byte, 3 bytes with 00 and D3, 5 bytes, 8095, 8096, 8097 and 16193 bytes}; stdin chunkings {everything the buffer takes, 1 byte, 2 bytes} for the small inputs and {buffer-full, 8095, 4000} for the large ones (all chunkings in the unbounded pass); event logging off/on; every interleaving of the copying loop and the recorder goroutine. Oracle at the instant start() returns (the process exits next): stdout == stdin and record == stdin; the recorder has terminated at quiescence; no panic. Non-trivial = distinct schedule trace",
+			Rule: "the shipped start() of rtcmlogger (in-package harness) under the controlled scheduler with stdin, stdout and the daily record writer owned by the harness (every Read and Write a scheduling point); inputs {empty, 1 byte, 3 bytes with 00 and D3, 5 bytes, 8095, 8096, 8097 and 16193 bytes}; stdin chunkings {everything the buffer takes, 1 byte, 2 bytes} for the small inputs and {buffer-full, 8095, 4000} for the large ones (all chunkings in the unbounded pass); event logging off/on; two scenarios in which the record writer fails on every call (the pass-through must still complete); every interleaving of the copying loop and the recorder goroutine. Oracle at the instant start() returns (the process exits next): stdout == stdin and record == stdin; the recorder has terminated at quiescence; no panic. Non-trivial = distinct schedule trace",
 			Assumptions: []string{"dailylogger.New is redirected to an in-memory sink: file naming/rotation belong to the go-tools dependency; what is decided is what the program hands to that writer before it exits", "stdin errors other than EOF are not injected"},
 			Scenarios:      scenarios,
 			QuickBudget:    45 * time.Second,
@@ -125,6 +125,48 @@ func scenarios(tier string) []*mcrt.Scenario {
 				})
 			}
 		}
+	}
+	// the record writer fails on every call (disk full): recording must not
+	// stop, delay or truncate the pass-through; input arrives in 1-byte blocks so
+	// that many blocks follow the first failures
+	for _, le := range []bool{false, true} {
+		le := le
+		input := pattern(9)
+		scs = append(scs, &mcrt.Scenario{
+			Name:  fmt.Sprintf("failing-record-writer input=9x1B logevents=%v", le),
+			Bound: 1, Horizon: 200000, Prune: true, Full: true,
+			Body: func(x *mcrt.X) {
+				obs := &obsT{out: &hsink.Sink{Name: "stdout"}, sinks: &hsink.Sinks{Fail: true}}
+				x.Data = obs
+				reportingReadErrors, reportingEventLogWriteErrors, reportingLogWriteErrors = true, true, true
+				eventLogger = nil
+				mcrt.NewDailySink = obs.sinks.New // the event log (.log) keeps working; only the record fails
+				mcrt.Stdin = &hsink.ChunkReader{Data: input, Sizes: []int{1}, Reset: true}
+				mcrt.Stdout = obs.out
+				start(&config.Config{MessageLogDirectory: "logs", LogEvents: le, EventLogDirectory: "events"})
+				obs.outAtRet = append([]byte{}, obs.out.Buf...)
+				mcrt.Note(uint64(len(obs.outAtRet)))
+				obs.returned = true
+			},
+			Check: func(x *mcrt.X) *mcrt.Failure {
+				obs := x.Data.(*obsT)
+				if len(x.Panics) > 0 {
+					p := x.Panics[0]
+					return &mcrt.Failure{Kind: "panic in " + p.Thread + ": " + first(p.Value) + " @" + p.Site, Detail: p.Stack}
+				}
+				if !obs.returned {
+					return &mcrt.Failure{Kind: "pass-through-stalled-when-the-record-writer-fails", Detail: fmt.Sprintf("%d of %d bytes reached stdout; end=%s blocked=%v", len(obs.out.Buf), len(input), x.End, x.Blocked)}
+				}
+				if !bytes.Equal(obs.outAtRet, input) {
+					return &mcrt.Failure{Kind: "stdout-differs-from-stdin", Detail: fmt.Sprintf("record writer failing: %d bytes out, %d bytes in", len(obs.outAtRet), len(input))}
+				}
+				if x.End != mcrt.EndAllDone {
+					return &mcrt.Failure{Kind: "recorder-did-not-terminate", Detail: fmt.Sprint(x.Blocked)}
+				}
+				harness.Outcome("pass-through survives a failing record writer")
+				return nil
+			},
+		})
 	}
 	return scs
 }
